@@ -44,6 +44,8 @@ func runC19(c *Ctx) {
 		loc   core.Loc
 		reset core.Loc
 		sys   types.Object
+		// boundExpr is set for collections made by a helper call (no loop in this function)
+		boundExpr ast.Expr
 	}
 	var colls []coll
 	for _, rl := range rangeLoops(f) {
@@ -78,6 +80,38 @@ func runC19(c *Ctx) {
 			}
 		}
 		colls = append(colls, cl)
+	}
+	// a collection may also be a call to a helper whose whole body is such a loop over its own
+	// parameters: S = H(msgs, K) collects below K into a fresh slice
+	for _, h := range g.Find(func(n ast.Node) bool {
+		a, ok := n.(*ast.AssignStmt)
+		return ok && len(a.Lhs) == 1 && len(a.Rhs) == 1
+	}) {
+		a := h.Node.(*ast.AssignStmt)
+		call, isCall := ast.Unparen(a.Rhs[0]).(*ast.CallExpr)
+		if !isCall {
+			continue
+		}
+		fo, _ := core.Callee(info, call).(*types.Func)
+		if fo == nil || fo.Pkg() == nil || fo.Pkg() != f.Pkg.Types {
+			continue
+		}
+		hf := c.P.LookupFunc("server", fo.Name())
+		if hf == nil || hf.Type.Results == nil {
+			continue
+		}
+		mi, bi := collectorParams(hf)
+		if mi < 0 || bi < 0 || mi >= len(call.Args) || bi >= len(call.Args) {
+			continue
+		}
+		if msgs == nil || !isIdentOf(info, call.Args[mi], msgs) {
+			continue
+		}
+		id, isID := a.Lhs[0].(*ast.Ident)
+		if !isID {
+			continue
+		}
+		colls = append(colls, coll{loop: nil, bound: core.ExprString(call.Args[bi]), loc: h.Loc, reset: h.Loc, sys: info.ObjectOf(id), boundExpr: call.Args[bi]})
 	}
 	c.Expect("C19-R1", "system-message collection loops", len(colls), 2)
 	starts := map[core.Loc]string{}
@@ -130,7 +164,11 @@ func runC19(c *Ctx) {
 		okBound := best.bound == start
 		// the bound variable is not reassigned between the collection and the render
 		stable := true
-		if p := core.PathOf(info, best.loop.X); p.Valid() {
+		bx := best.boundExpr
+		if best.loop != nil {
+			bx = best.loop.X
+		}
+		if p := core.PathOf(info, bx); p.Valid() {
 			for _, as := range g.AssignsTo(p.Root) {
 				for _, l := range g.Between(best.loc, ex.Loc) {
 					if l == as.Loc {
@@ -141,7 +179,7 @@ func runC19(c *Ctx) {
 		}
 		okReset := best.reset.Valid()
 		c.Check("C19-R1", key+" system messages collected below the same index", c.Pos(call), okBound && stable && okReset,
-			"system messages are collected for indices below "+best.bound+" (at "+c.Pos(best.loop)+") but the rendered slice starts at "+start+"; a reset by make() must precede the collection")
+			"system messages are collected for indices below "+best.bound+" (at "+c.Pos(bx)+") but the rendered slice starts at "+start+"; a reset by make() must precede the collection")
 	}
 
 	// ------------------------------------------------------------------ R2
@@ -396,4 +434,73 @@ func exceedsContext(e ast.Expr) (exceeds, known bool) {
 		return false, true
 	}
 	return false, false
+}
+
+// collectorParams recognises a helper that returns the system messages among the first n of a
+// message list: it returns the indices of the list parameter and of the bound parameter, or -1.
+func collectorParams(h *core.Func) (msgsIdx, boundIdx int) {
+	info := h.Info()
+	msgsIdx, boundIdx = -1, -1
+	var mObj, bObj types.Object
+	k := 0
+	for _, fl := range h.Type.Params.List {
+		for _, n := range fl.Names {
+			o := info.Defs[n]
+			if isSliceOf(o.Type(), "api.Message") {
+				msgsIdx, mObj = k, o
+			} else if bt, ok := o.Type().Underlying().(*types.Basic); ok && bt.Info()&types.IsInteger != 0 {
+				boundIdx, bObj = k, o
+			}
+			k++
+		}
+	}
+	if mObj == nil || bObj == nil || len(h.Type.Results.List) != 1 {
+		return -1, -1
+	}
+	// body: a fresh local list, one loop over the bound with the role test appending list[j], return of that local
+	var list types.Object
+	okLoop := false
+	for _, rl := range rangeLoops(h) {
+		if rl.Over != bObj {
+			continue
+		}
+		role := false
+		core.InspectShallow(rl.Stmt.Body, func(n ast.Node) bool {
+			switch x := n.(type) {
+			case *ast.IfStmt:
+				if isRoleSystemTest(info, x.Cond) && core.UsesObj(info, x.Cond, mObj) {
+					role = true
+				}
+			case *ast.AssignStmt:
+				if len(x.Lhs) == 1 && len(core.CallsTo(info, x.Rhs[0], false, "builtin.append")) == 1 && core.UsesObj(info, x.Rhs[0], mObj) {
+					if id, ok := x.Lhs[0].(*ast.Ident); ok {
+						list = info.ObjectOf(id)
+					}
+				}
+			}
+			return true
+		})
+		okLoop = role && list != nil
+	}
+	if !okLoop {
+		return -1, -1
+	}
+	if v, ok := list.(*types.Var); !ok || v.Parent() == nil || v == mObj {
+		return -1, -1
+	}
+	g := core.NewGraph(h)
+	for _, ex := range g.Returns() {
+		if len(ex.Return.Results) != 1 || !isIdentOf(info, ex.Return.Results[0], list) {
+			return -1, -1
+		}
+	}
+	// the list is a local that starts empty in the helper (declared or made there), never a parameter
+	for _, fl := range h.Type.Params.List {
+		for _, n := range fl.Names {
+			if info.Defs[n] == list {
+				return -1, -1
+			}
+		}
+	}
+	return msgsIdx, boundIdx
 }
